@@ -114,10 +114,11 @@ func (t *traceObs) OnStep(st tabledrv.Step, before, after portalwire.VerifTableS
 }
 
 type aggStats struct {
-	mu    sync.Mutex
-	inv   tabledrv.InvStats
-	kinds map[string]int
-	unack int
+	mu       sync.Mutex
+	inv      tabledrv.InvStats
+	kinds    map[string]int
+	unack    int
+	selfRecs int
 }
 
 func (a *aggStats) add(s tabledrv.InvStats, st tabledrv.SerialStats) {
@@ -133,6 +134,7 @@ func (a *aggStats) add(s tabledrv.InvStats, st tabledrv.SerialStats) {
 		a.kinds[k] += v
 	}
 	a.unack += st.PingsUnacked
+	a.selfRecs += st.SelfRecords
 }
 
 // concurrent issues the same operations from many goroutines against the
@@ -300,6 +302,7 @@ func run(r *lib.Run) {
 	r.Max("max_entries_plus_replacements_one_subnet_in_bucket_info", agg.inv.MaxBucketSubnetWithRepl)
 	r.Max("max_table_nodes", agg.inv.Nodes)
 	r.Count("ping_replies_not_observed", agg.unack)
+	r.Count("records_with_local_id_fed_to_adds_and_lookup_feedback", agg.selfRecs)
 	if agg.inv.MaxEntries < portalwire.VerifBucketSize || agg.inv.MaxRepl < portalwire.VerifMaxReplacements {
 		r.Warn("generator did not fill a bucket (%d entries, %d replacements)", agg.inv.MaxEntries, agg.inv.MaxRepl)
 	}
